@@ -588,6 +588,9 @@ fn minimise(c: &dyn Campaign, mut sc: Scenario, mut seed: u64, clause: &str, sig
             }
             let mut found = None;
             for k in 0..24u64 {
+                if t0.elapsed().as_secs_f64() > budget_s * 0.6 {
+                    break;
+                }
                 let s2 = if k == 0 { seed } else { crate::rng::mix2(seed, k) };
                 if let Some((o, v)) = try_run(c, &cand, s2, None, false, clause, sig) {
                     found = Some((s2, o, v));
